@@ -289,7 +289,7 @@ def _run_calls(trace, proxy, pids, mode, script, outs):
             outs.append(_outcome(lambda: T.call_stub(trace, pids[0], proxy, c["m"], args, kwargs)))
         return
     nb = proxy.rpc_nonblocking
-    chunk = 1 if mode == "nb" else 3
+    chunk = 1 if mode == "nb" else 3 if mode == "nbrev" else len(script)          # "nball": everything outstanding at once
     i = 0
     while i < len(script):
         part = script[i:i + chunk]
@@ -298,7 +298,7 @@ def _run_calls(trace, proxy, pids, mode, script, outs):
             args, kwargs = build_call(c)
             futs.append(_outcome(lambda: T.call_stub(trace, pids[1], nb, c["m"], args, kwargs)))
         res = [None] * len(part)
-        for j in (range(len(part)) if mode == "nb" else reversed(range(len(part)))):
+        for j in (range(len(part)) if mode == "nb" else reversed(range(len(part)))):      # nbrev / nball: wait in reverse
             f = futs[j]
             res[j] = f if f[0] == "exc" else _outcome(f[1].wait)
         outs.extend(res)
@@ -1028,6 +1028,15 @@ class C02(Prop):
             self._concurrent(ctx, res, ctx.scale(340, 3500), seen, lines, outs, spans, thorough=not ctx.quick)
             ctx.log(f"concurrent scenarios done ({len(lines)} trace lines)")
             self._diff(res, lines, outs, spans)
+            # many futures outstanding at once in one context (address uniqueness far beyond a handful of callers)
+            n_out = ctx.scale(150, 1300)
+            plan = {"script": [{"m": "tagged", "a": [["int", str(i)]], "k": [["payload", ["int", str(i * i)]]]} for i in range(n_out)],
+                    "seed": ctx.rng.randrange(1 << 30), "lock": None, "names": ["srv", "cli"]}
+            vs = [("local", "nball"), ("peer", "nball")]
+            for f in eval_script(plan, vs):
+                self._note_failure(res, seen, plan, f[0], f[1], f[2], f[3])
+            res.count("calls_outstanding_at_once_scenario_size", n_out)
+            res.note_case(("outstanding", n_out))
             if not ctx.quick:
                 self._scripts(ctx, res, 250, 8, seen, lines, outs, spans, real_tcp=True, big=True)
                 self._concurrent(ctx, res, 200, seen, lines, outs, spans, real_tcp=True, thorough=True)
